@@ -155,7 +155,7 @@ int disasm_cp1610(
         case CP1610_OP_JUMP:
         {
           opcode = memory->read16(address + 2);
-          data = memory->read16(address + 4);
+          data = memory->read16(address + 4) & 0x3ff;
 
           int bb = (opcode >> 8) & 0x3;
           int ii = opcode & 0x3;
@@ -163,26 +163,27 @@ int disasm_cp1610(
 
           data |= ((opcode >> 2) & 0x3f) << 10;
 
+          strcpy(instruction, "???");
+
           for (j = 0; j < 6; j++)
           {
-            if (table_cp1610_jump[j].ii == ii)
+            if (table_cp1610_jump[j].ii != ii) { continue; }
+
+            if (table_cp1610_jump[j].use_reg == 0 && bb == 3)
             {
-              if (table_cp1610_jump[j].bb != 3 && bb != 3)
-              {
-                snprintf(instruction, length, "%s 0x%04x",
-                  table_cp1610[n].instr,
-                  data);
-                break;
-              }
-                else
-              if (bb == table_cp1610_jump[j].bb && bb == 3)
-              {
-                snprintf(instruction, length, "%s r%d, 0x%04x",
-                  table_cp1610[n].instr,
-                  bb + 4,
-                  data);
-                break;
-              }
+              snprintf(instruction, length, "%s 0x%04x",
+                table_cp1610_jump[j].instr,
+                data);
+              break;
+            }
+              else
+            if (table_cp1610_jump[j].use_reg == 1 && bb != 3)
+            {
+              snprintf(instruction, length, "%s r%d, 0x%04x",
+                table_cp1610_jump[j].instr,
+                bb + 4,
+                data);
+              break;
             }
           }
 
